@@ -5,6 +5,38 @@ From Coq Require Import List ZArith Lia Bool Arith.
 From Capy Require Import Common.CapyCore.
 Import ListNotations.
 
+(* One deterministic move on a goal [_ = M] with [Hne : M <> RFuel]: look at the
+   head scrutinee of [M]; a sub-evaluation is first shown not to be [RFuel]
+   (otherwise [M] would reduce to [RFuel]), the ordering hypothesis rewrites the
+   left-hand side, then both sides are destructed together. *)
+Ltac mono_call Hne call bad lem :=
+  let N := fresh "N" in
+  assert (N : call <> bad)
+    by (let X := fresh "X" in intro X; rewrite X in Hne; apply Hne; reflexivity);
+  rewrite (lem N); clear N; revert Hne; destruct call; intros Hne.
+
+(* the same inside a block: sub-evaluations are those of the statement evaluator
+   [ev] (ordering hypothesis [Hev]) and of the rest of the block (induction
+   hypothesis [IH]) *)
+Ltac stmts_mono_go ev Hev IH Hne :=
+  cbv beta iota in Hne |- *;
+  first
+    [ reflexivity
+    | exfalso; apply Hne; reflexivity
+    | apply Hev; exact Hne
+    | apply IH; exact Hne
+    | match type of Hne with
+      | (match ?x with _ => _ end) <> _ =>
+          lazymatch x with
+          | ev ?en ?out ?a =>
+              mono_call Hne x RFuel (Hev en out a)
+          | eval_stmts ev ?en ?out ?ss ?tl =>
+              mono_call Hne x RFuel (IH tl en out)
+          | _ => revert Hne; destruct x; intros Hne
+          end;
+          stmts_mono_go ev Hev IH Hne
+      end ].
+
 (* ------------------------------------------------------------ list helpers *)
 Section EvMono.
   Variables ev ev' : env -> list event -> expr -> res.
@@ -32,65 +64,9 @@ Section EvMono.
   Proof.
     induction ss as [|s ss IH]; intros tail en out Hne; cbn [eval_stmts] in *.
     - apply Hev. exact Hne.
-    - assert (Hlet : forall x m e0,
-                 match ev en out e0 with
-                 | Res en1 out1 (CVal v) =>
-                     match eval_stmts ev ((x, m, v) :: en1) out1 ss tail with
-                     | Res (_ :: en3) out2 c => Res en3 out2 c
-                     | Res [] _ _ => RStuck
-                     | r => r
-                     end
-                 | r => r
-                 end <> RFuel ->
-                 match ev' en out e0 with
-                 | Res en1 out1 (CVal v) =>
-                     match eval_stmts ev' ((x, m, v) :: en1) out1 ss tail with
-                     | Res (_ :: en3) out2 c => Res en3 out2 c
-                     | Res [] _ _ => RStuck
-                     | r => r
-                     end
-                 | r => r
-                 end =
-                 match ev en out e0 with
-                 | Res en1 out1 (CVal v) =>
-                     match eval_stmts ev ((x, m, v) :: en1) out1 ss tail with
-                     | Res (_ :: en3) out2 c => Res en3 out2 c
-                     | Res [] _ _ => RStuck
-                     | r => r
-                     end
-                 | r => r
-                 end).
-      { intros x m e0 H.
-        assert (N : ev en out e0 <> RFuel).
-        { intro X. rewrite X in H. apply H. reflexivity. }
-        rewrite (Hev en out e0 N). clear N. revert H.
-        destruct (ev en out e0) as [en1 out1 c| | | |]; intros H; try reflexivity.
-        destruct c as [v| | |]; try reflexivity.
-        assert (N : eval_stmts ev ((x, m, v) :: en1) out1 ss tail <> RFuel).
-        { intro X. rewrite X in H. apply H. reflexivity. }
-        rewrite (IH tail _ _ N). reflexivity. }
-      assert (Hoth :
-                 match ev en out s with
-                 | Res en1 out1 (CVal _) => eval_stmts ev en1 out1 ss tail
-                 | r => r
-                 end <> RFuel ->
-                 match ev' en out s with
-                 | Res en1 out1 (CVal _) => eval_stmts ev' en1 out1 ss tail
-                 | r => r
-                 end =
-                 match ev en out s with
-                 | Res en1 out1 (CVal _) => eval_stmts ev en1 out1 ss tail
-                 | r => r
-                 end).
-      { intros H.
-        assert (N : ev en out s <> RFuel).
-        { intro X. rewrite X in H. apply H. reflexivity. }
-        rewrite (Hev en out s N). clear N. revert H.
-        destruct (ev en out s) as [en1 out1 c| | | |]; intros H; try reflexivity.
-        destruct c as [v| | |]; try reflexivity.
-        apply IH. exact H. }
-      destruct s; try (apply Hoth; exact Hne).
-      apply Hlet. exact Hne.
+    - (* every kind of statement ([let]: binding popped afterwards; [defer]: the
+         rest of the block first, then the deferred expression; plain statement) *)
+      destruct s; stmts_mono_go ev Hev IH Hne.
   Qed.
 
   Lemma eval_place_mono : forall e en out,
@@ -114,16 +90,6 @@ Section EvMono.
 End EvMono.
 
 (* ------------------------------------------------------------------- step *)
-(* One deterministic move on a goal [_ = M] with [Hne : M <> RFuel]: look at the
-   head scrutinee of [M]; a sub-evaluation is first shown not to be [RFuel]
-   (otherwise [M] would reduce to [RFuel]), the ordering hypothesis rewrites the
-   left-hand side, then both sides are destructed together. *)
-Ltac mono_call Hne call bad lem :=
-  let N := fresh "N" in
-  assert (N : call <> bad)
-    by (let X := fresh "X" in intro X; rewrite X in Hne; apply Hne; reflexivity);
-  rewrite (lem N); clear N; revert Hne; destruct call; intros Hne.
-
 Ltac mono_go rec Hord Hne :=
   cbv beta iota in Hne |- *;
   first
